@@ -366,9 +366,10 @@ class MicrogridController(Component, Controller):
                     need_manual_attention = True
                     line_fail_status = sensor.line.failed
                 num_fails += 1 if line_fail_status else 0
-            if need_manual_attention is True:
-                self.sectioning_time += self.manual_sectioning_time
             if num_fails > 0:
+                if need_manual_attention is True:
+                    # The failed section is located by manual inspection
+                    self.sectioning_time += self.manual_sectioning_time
                 section.state = SectionState.DISCONNECTED
                 self.sectioning_time += section.get_disconnect_time(dt, self)
                 self.failed_sections.append(section)
@@ -419,8 +420,6 @@ class MicrogridController(Component, Controller):
                     need_manual_attention = True
                     line_fail_status = sensor.line.failed
                 num_fails += 1 if line_fail_status else 0
-            if need_manual_attention is True:
-                self.sectioning_time += self.manual_sectioning_time
             if num_fails == 0:
                 section.connect(dt, self)
                 if section in self.failed_sections:
